@@ -453,8 +453,14 @@ def r3_5(ctx, rc):
     c02.r2_7(ctx, rc)
     # directories made before a failing mkdir are handed off for removal
     # (a leftover directory blocks the restoration of a foreign file)
-    from .c14 import r14_3
+    from .c14 import r14_3, r14_4
     r14_3(ctx, rc)
+    # a directory nobody owns is not removed by rollback and blocks the
+    # restoration the same way (R9.6); a file that could not be moved aside
+    # must not be taken for "nothing there" (R14.4)
+    from .c09 import r9_6
+    r9_6(ctx, rc)
+    r14_4(ctx, rc)
 
 
 RULES = [
